@@ -35,7 +35,67 @@ const (
 	LIdleTimout = 112 // (3 p 112 actionIdx streamIdx) a fake action received a time-out event while holding nothing
 	LActionSaw  = 113 // (3 p 113 actionIdx streamIdx seq kind)
 	LProbe      = 114 // (4 0 114 latencyMs boundMs src offset) time from In() to the input commit of a probe event
+	LProcCount  = 115 // (4 0 115 procCountAtQuiescence procCountAtStart) growProcs / expandProcs observed
+	LMaint      = 117 // (1 bidx 117 n) the batcher's MaintenanceFn ran for the n-th time (harness-only)
+	// LPanic with a code >= 2 is an integrity failure seen by a fake action / the fake output (the real code handed over a
+	// recycled event that is not what was read): (k o 101 code actionIdx 0 0)
+	//   2 pad shorter / longer than the event says   3 pad bytes are not this event's   4 wide object lost fields
+	//   5 Buf of a fresh event not empty at action 0  6 a field of a split child is not the child's own
+	CorruptPadLen = 2
+	CorruptPad    = 3
+	CorruptWide   = 4
+	CorruptBuf    = 5
+	CorruptKid    = 6
 )
+
+// PadByte is byte i of the pad of the event read at `off` (feeder op 6).
+func PadByte(off int64, i int) byte { return byte('a' + (off+int64(i))%26) }
+
+// checkEvent is the integrity oracle of the recycle families: an event built by feeder op 6 says how long its pad is
+// ("plen"), which offset seeded the pad bytes ("off") and how many fields its wide object has ("wn").  An event object
+// that comes back from the pool with stale buffers, or a Root whose node pool was released wrongly, fails here.
+func checkEvent(e *pipeline.Event) int {
+	if e.Root == nil {
+		return 0
+	}
+	if n := e.Root.Dig("plen"); n != nil {
+		pad := e.Root.Dig("pad")
+		if pad == nil {
+			return CorruptPadLen
+		}
+		ps := pad.AsString()
+		if len(ps) != n.AsInt() {
+			return CorruptPadLen
+		}
+		off := int64(0)
+		if o := e.Root.Dig("off"); o != nil {
+			off = int64(o.AsInt())
+		}
+		for i := 0; i < len(ps); i++ {
+			if ps[i] != PadByte(off, i) {
+				return CorruptPad
+			}
+		}
+	}
+	if n := e.Root.Dig("wn"); n != nil {
+		w := e.Root.Dig("w")
+		if w == nil || !w.IsObject() || len(w.AsFields()) != n.AsInt() {
+			return CorruptWide
+		}
+		for i, f := range w.AsFields() {
+			if f.AsString() != fmt.Sprintf("k%d", i) || f.AsFieldValue().AsInt() != i {
+				return CorruptWide
+			}
+		}
+	}
+	if n := e.Root.Dig("kid"); n != nil {
+		// a split child carries the offset of its parent and its own index: "kid":"<off>.<i>", "koff":off, "ki":i
+		if o, i := e.Root.Dig("koff"), e.Root.Dig("ki"); o == nil || i == nil || n.AsString() != fmt.Sprintf("%d.%d", o.AsInt(), i.AsInt()) {
+			return CorruptKid
+		}
+	}
+	return 0
+}
 
 type rawLabel struct {
 	obj  any
@@ -63,6 +123,12 @@ var (
 	hooksOnce sync.Once
 	startMu   sync.Mutex // serialises Pipeline.Start (GOMAXPROCS decides the processor count there)
 )
+
+// UseProductionNodePool sets what cmd/file.d sets at start-up: events start with a node pool of 16 (the library default is
+// 128), so that wide events really grow the pool and resetEvent's `PoolSize() > DefaultJSONNodePoolSize*4` has both outcomes.
+// The value is process-wide: it is called from main() of the harnesses that own their whole process (C01, C02, C04, C05),
+// never from the drivers (C10, C13, C15 share them and decide for themselves).
+func UseProductionNodePool() { insaneJSON.StartNodePoolSize = pipeline.DefaultJSONNodePoolSize }
 
 func installHooks() {
 	hooksOnce.Do(func() {
@@ -120,7 +186,8 @@ func (f *kafkaLikeInput) Start(_ pipeline.AnyConfig, p *pipeline.InputPluginPara
 
 // scripted action: the i-th character of the event's "ops" field is the op for action i:
 //
-//	p pass | d discard | b break | h hold (start of a run) | c continue (collapse while holding) | s split into 2 children
+//	p pass | d discard | b break | h hold (start of a run) | c continue (collapse while holding) | s split into the objects of "kids"
+//	g pass after growing e.Buf by 5000 bytes
 //
 // it follows the protocol of the join plugin: a non-continuing event or a time-out flushes the held event via Propagate.
 type fakeAction struct {
@@ -150,6 +217,12 @@ func (a *fakeAction) Do(e *pipeline.Event) pipeline.ActionResult {
 		a.flush()
 		return pipeline.ActionDiscard
 	}
+	if c := checkEvent(e); c != 0 {
+		a.log.add(a.ctl, LPanic, int64(c), int64(a.idx), 0, 0)
+	}
+	if a.idx == 0 && e.IsRegularKind() && len(e.Buf) != 0 {
+		a.log.add(a.ctl, LPanic, CorruptBuf, int64(a.idx), 0, 0)
+	}
 	op := byte('p')
 	if n := e.Root.Dig("ops"); n != nil {
 		s := n.AsString()
@@ -177,6 +250,10 @@ func (a *fakeAction) Do(e *pipeline.Event) pipeline.ActionResult {
 		a.flush()
 	}
 	switch op {
+	case 'g':
+		// what decode / modify / join do: the event's scratch buffer grows past the 4 KiB the pool keeps
+		e.Buf = append(e.Buf, make([]byte, 5000)...)
+		return pipeline.ActionPass
 	case 'd':
 		return pipeline.ActionDiscard
 	case 'b':
@@ -203,6 +280,10 @@ type outCfg struct {
 	deadq    bool
 	plan     []hx.Sx // per batch seq: (delayMs failures)
 	maxDelay int
+	// backoff of the retriable output (ext): MinRetention in ms, Multiplier in percent; 0 = the historical 1 ms / 1.0
+	retentionMs int
+	multPct     int
+	maintMs     int // > 0: MaintenanceFn / MaintenanceInterval of the main batcher
 }
 
 type fakeOutput struct {
@@ -217,6 +298,7 @@ type fakeOutput struct {
 	failMu    sync.Mutex
 	failsLeft map[int64]int
 	router    *pipeline.Router
+	maintN    atomic.Int64
 }
 
 var errSend = errors.New("scripted send failure")
@@ -278,6 +360,29 @@ func (d *dqPlugin) Out(e *pipeline.Event) {
 	d.o.dq.Add(e)
 }
 
+func (o *fakeOutput) backoff() pipeline.BackoffOpts {
+	b := pipeline.BackoffOpts{MinRetention: time.Millisecond, Multiplier: 1.0, AttemptNum: o.cfg.retry, IsDeadQueueAvailable: o.cfg.deadq}
+	if o.cfg.retentionMs > 0 {
+		b.MinRetention = time.Duration(o.cfg.retentionMs) * time.Millisecond
+	}
+	if o.cfg.multPct > 0 {
+		b.Multiplier = float64(o.cfg.multPct) / 100
+	}
+	return b
+}
+
+// maintenance installs the batcher's MaintenanceFn hook (elasticsearch / clickhouse use it to refresh clients).
+func (o *fakeOutput) maintenance(opts *pipeline.BatcherOptions) {
+	if o.cfg.maintMs <= 0 {
+		return
+	}
+	opts.MaintenanceInterval = time.Duration(o.cfg.maintMs) * time.Millisecond
+	opts.MaintenanceFn = func(*pipeline.WorkerData) {
+		o.log.add(o.batch, LMaint, o.maintN.Add(1), 0, 0, 0)
+		time.Sleep(time.Millisecond)
+	}
+}
+
 func (o *fakeOutput) Start(_ pipeline.AnyConfig, p *pipeline.OutputPluginParams) {
 	o.ctl = p.Controller
 	o.router = p.Router
@@ -289,12 +394,14 @@ func (o *fakeOutput) Start(_ pipeline.AnyConfig, p *pipeline.OutputPluginParams)
 		o.add = func(e *pipeline.Event) { o.ctl.Commit(e) }
 		o.stop = func() {}
 	case 1:
-		o.batch = pipeline.NewBatcher(pipeline.BatcherOptions{
+		bo := pipeline.BatcherOptions{
 			PipelineName: p.PipelineName, OutputType: "verif", Controller: &recCtl{o.log, func() any { return o.batch }, o.ctl},
 			OutFn:   func(_ *pipeline.WorkerData, b *pipeline.Batch) { _ = o.send(0, b) },
 			Workers: o.cfg.workers, BatchSizeCount: o.cfg.count, FlushTimeout: time.Duration(o.cfg.flushMs) * time.Millisecond,
 			MetricCtl: p.MetricCtl,
-		})
+		}
+		o.maintenance(&bo)
+		o.batch = pipeline.NewBatcher(bo)
 		register(o.batch, o.log)
 		o.add, o.stop = o.batch.Add, o.batch.Stop
 		o.batch.Start(ctx)
@@ -314,9 +421,10 @@ func (o *fakeOutput) Start(_ pipeline.AnyConfig, p *pipeline.OutputPluginParams)
 			Workers: o.cfg.workers, BatchSizeCount: o.cfg.count, FlushTimeout: time.Duration(o.cfg.flushMs) * time.Millisecond,
 			MetricCtl: p.MetricCtl,
 		}
+		o.maintenance(&opts)
 		rb := pipeline.NewRetriableBatcher(&opts,
 			func(_ *pipeline.WorkerData, b *pipeline.Batch) error { return o.send(0, b) },
-			pipeline.BackoffOpts{MinRetention: time.Millisecond, Multiplier: 1.0, AttemptNum: o.cfg.retry, IsDeadQueueAvailable: o.cfg.deadq},
+			o.backoff(),
 			func(err error, events []*pipeline.Event) {
 				o.log.add(o.batch, LOnError, int64(len(events)), 0, 0, 0)
 				for i := range events {
@@ -342,16 +450,47 @@ func (o *fakeOutput) Stop() {
 		unregister(o.dq)
 	}
 }
-func (o *fakeOutput) Out(e *pipeline.Event) { o.add(e) }
+func (o *fakeOutput) Out(e *pipeline.Event) {
+	if c := checkEvent(e); c != 0 {
+		o.log.add(o.ctl, LPanic, int64(c), -1, 0, 0)
+	}
+	o.add(e)
+}
+
+// ExpandEvent builds the bytes of feeder op 6 from its compact form.
+func ExpandEvent(js []byte, off int64, padLen, nWide int) []byte {
+	out := make([]byte, 0, len(js)+padLen+16*nWide+32)
+	out = append(out, js[:len(js)-1]...) // without the closing brace
+	out = append(out, `,"pad":"`...)
+	for i := 0; i < padLen; i++ {
+		out = append(out, PadByte(off, i))
+	}
+	out = append(out, '"')
+	if nWide > 0 {
+		out = append(out, `,"w":{`...)
+		for i := 0; i < nWide; i++ {
+			if i > 0 {
+				out = append(out, ',')
+			}
+			out = append(out, fmt.Sprintf(`"k%d":%d`, i, i)...)
+		}
+		out = append(out, '}')
+	}
+	return append(out, '}')
+}
 
 // RunCase executes one case.
 //
-//	case = (cfg feeders plan)
-//	cfg  = (procs pool capacity eventTimeoutMs nActions outKind workers batchCount flushMs retry deadq spread)
+//	case = (cfg feeders plan [ext])
+//	cfg  = (procs pool capacity eventTimeoutMs nActions outKind workers batchCount flushMs retry deadq spread [gate])
 //	       procs: 1 = DisableParallelism, else 2*GOMAXPROCS at Start (harness sets GOMAXPROCS = procs/2 during Start)
 //	       pool: 0 low-memory (default) | 1 standard
 //	feeders = ((op ...) ...) one goroutine each; op = (0 src offset #json) In | (1 ms) sleep
+//	          | (6 src offset #json padLen nWide) In of the event `json` extended by a pad of padLen bytes (PadByte) and an
+//	            object "w" of nWide fields k0..: the text grows past AvgEventSize / the Root past its node pool without the
+//	            case text growing; the event says what it must contain ("plen", "off", "wn": see checkEvent)
 //	plan = ((delayMs failures) ...) per main batch seq
+//	ext  = (avgEventSize retentionMs multiplierPercent maintenanceMs), optional; 0 = default (256, 1 ms, 1.0, no maintenance hook)
 //
 // observable = ((objkind objidx kind a b c d) ...) with pointers replaced by indices of first appearance.
 func RunCase(cs hx.Sx) hx.Sx {
@@ -363,11 +502,25 @@ func RunCase(cs hx.Sx) hx.Sx {
 	oc := outCfg{kind: g(5), workers: g(6), count: g(7), flushMs: g(8), retry: g(9), deadq: g(10) != 0, plan: hx.Items(it[2])}
 	spread := g(11) != 0
 	feeders := hx.Items(it[1])
+	avgEventSize := 256
+	if len(it) > 3 {
+		ext := hx.Items(it[3])
+		x := func(i int) int {
+			if i < len(ext) {
+				return int(hx.Int(ext[i]))
+			}
+			return 0
+		}
+		if x(0) > 0 {
+			avgEventSize = x(0)
+		}
+		oc.retentionMs, oc.multPct, oc.maintMs = x(1), x(2), x(3)
+	}
 
 	log := &caseLog{}
 	settings := &pipeline.Settings{
 		Capacity: capacity, MaintenanceInterval: time.Second * 5, EventTimeout: time.Duration(evTimeout) * time.Millisecond,
-		Antispam: pipeline.AntispamSettings{Threshold: -1}, AvgEventSize: 256, MetaCacheSize: 8, StreamField: "stream", Decoder: "json",
+		Antispam: pipeline.AntispamSettings{Threshold: -1}, AvgEventSize: avgEventSize, MetaCacheSize: 8, StreamField: "stream", Decoder: "json",
 		Metric: &pipeline.MetricSettings{HoldDuration: time.Minute, MaxLabelValueLength: 100},
 	}
 	if poolKind == 1 {
@@ -420,6 +573,7 @@ func RunCase(cs hx.Sx) hx.Sx {
 	}
 	p.Start()
 	runtime.GOMAXPROCS(old)
+	procsAtStart := p.VerifProcCount()
 	startMu.Unlock()
 
 	// directed schedule support: the streamer heartbeat is held right before its first tryUnblock call
@@ -467,6 +621,15 @@ func RunCase(cs hx.Sx) hx.Sx {
 				switch hx.Int(o[0]) {
 				case 0:
 					src, off, data := uint64(hx.Int(o[1])), hx.Int(o[2]), hx.Bytes(o[3])
+					seq := p.In(pipeline.SourceID(src), "verif", pipeline.NewOffsets(off, nil), data, false, nil)
+					if seq == pipeline.EventSeqIDError {
+						log.add(p, LInRefused, int64(src), off, 0, 0)
+					} else {
+						accepted.Add(1)
+					}
+				case 6:
+					src, off := uint64(hx.Int(o[1])), hx.Int(o[2])
+					data := ExpandEvent(hx.Bytes(o[3]), off, int(hx.Int(o[4])), int(hx.Int(o[5])))
 					seq := p.In(pipeline.SourceID(src), "verif", pipeline.NewOffsets(off, nil), data, false, nil)
 					if seq == pipeline.EventSeqIDError {
 						log.add(p, LInRefused, int64(src), off, 0, 0)
@@ -572,6 +735,7 @@ func RunCase(cs hx.Sx) hx.Sx {
 		time.Sleep(5 * time.Millisecond)
 	}
 	inUse, waiters := p.VerifPoolInUse(), p.VerifPoolWaiters()
+	log.add(p, LProcCount, int64(p.VerifProcCount()), int64(procsAtStart), 0, 0)
 	log.add(p, LQuiescent, inUse, waiters, accepted.Load(), 0)
 	if inUse != 0 {
 		log.add(p, LStuck, 3, inUse, waiters, 0)
